@@ -121,6 +121,15 @@ def run_property(pid, spec, tier, seed, work, t0, replay=None, no_prove=False):
     if "post" in spec:
         for (i, why) in spec["post"](cases, impl):
             v.prop_fail.append((i, cases[i], impl[i], "", "", why))
+    if spec.get("sched_phase"):
+        # "loading a name again returns a time_zone equal to the first one": also when the first loads race
+        sv = sched_identity_phase(tier, seed, work)
+        if sv is None:
+            p = C.write_replay(pid, {"property": pid, "kind": "build-failure", "detail": "thread harness"})
+            print("VIOLATION property=%s replay=%s no-failing-input-found" % (pid, p))
+            return 1
+        v.prop_fail += sv.prop_fail
+        v.corr_fail += sv.corr_fail
 
     # ---- 3b. two builds that differ only in how automatic variables are
     #          pre-filled must agree on every output (C12, thorough tier) ---
@@ -244,7 +253,7 @@ reg("C06", gen=gen_zone.gen_c06, post=gen_zone.post_c06)
 reg("C11", gen=gen_zone.gen_c11)
 reg("C10", gen=gen_zone.gen_c10, ub_is_violation=True)
 reg("C12", gen=gen_zone.gen_c12, ub_is_violation=True, model_err_is_violation=True, two_builds=True)
-reg("C14", gen=gen_zone.gen_c14, post=gen_zone.post_c14)
+reg("C14", gen=gen_zone.gen_c14, post=gen_zone.post_c14, sched_phase=True)
 reg("C07", gen=gen_fmt.gen_c07)
 reg("C08", gen=gen_fmt.gen_c08, ub_is_violation=True)
 reg("C09", gen=gen_fmt.gen_c09, ub_is_violation=True)
@@ -260,6 +269,23 @@ def sched_zones():
     a = open(os.path.join(tzif.ZONEINFO, "America/New_York"), "rb").read()
     b = open(os.path.join(tzif.ZONEINFO, "Asia/Tokyo"), "rb").read()
     return [("A", a), ("B", b), ("X", b"TZif-broken" + b"\0" * 60)]
+
+
+def sched_identity_phase(tier, seed, work):
+    """a sample of the C13 loader schedules (thread harness vs the model's exec), for C14's identity clause"""
+    rng = C.Rng(seed * 7919 + 14)
+    cases = gen_sched.schedules("quick", rng, "sched")
+    cases = cases[:: max(1, len(cases) // (600 if tier == "quick" else 3000))]
+    zt = os.path.join(work, "szones.txt")
+    gen_zone.write_table(zt, sched_zones())
+    env = {"VERIF_ZONES": zt}
+    drv, _d = C.build_driver()
+    har, _h = C.build_harness(harness_src="thr_harness.cc")
+    if drv is None or har is None:
+        return None
+    impl, fails = C.run_sharded(har, [c.split(" ", 1)[1] for c in cases], work, "simpl", env=env)
+    drvl, _f = C.run_sharded(drv, cases, work, "sdrv", env=env)
+    return C.compare(cases, impl, drvl, fails)
 
 
 def run_sched(pid, spec, tier, seed, work, t0, no_prove):
@@ -454,7 +480,10 @@ def run_c19(pid, spec, tier, seed, work, t0, no_prove):
         fs_measure = {}
         configs = [(d, t, l) for d in TZDIRS for t in TZS for l in LTS]
         if tier == "quick":
-            configs = [c for i, c in enumerate(configs) if c[2] is None or c[1] in (None, b"localtime", b":localtime")]
+            # $LOCALTIME matters only when $TZ says "localtime" - so it must be SET in some configurations where
+            # $TZ says something else (a zone, ":zone", an invalid name, empty) to see that it is ignored there
+            configs = [c for i, c in enumerate(configs) if c[2] is None or c[1] in (None, b"localtime", b":localtime")
+                       or (c[0] in (tzroot.encode(), None) and c[1] in (b"B", b":B", b"No/Such", b"", absA))]
         for ci, (tzdir, tz, lt) in enumerate(configs):
             req = [n.hex() if n else "-" for n in NAMES] + ["LOCAL", "DEFAULT"]
             reqf = os.path.join(work, "req%d" % ci)
